@@ -200,6 +200,21 @@ def step (ser : String → List Nat) (s : St) : Op → St × Obs
 def run (ser : String → List Nat) (s : St) (ops : List Op) : St :=
   ops.foldl (fun s op => (step ser s op).1) s
 
+/-! ### beyond the issuing service: `impls.PushMessageByIds` towards other front-ends -/
+
+/-- the tuples `impls.PushMessageByIds`, called by the service `me`, sends onward as one
+`sys.pushmsg` request each: those addressed to another service that the directory `dir`
+knows (`pushLocal` declines because `serverId != ns.Name`; an unknown service is logged
+and dropped) -/
+def forwarded (me : String) (dir : List String) (ps : List Push) : List Push :=
+  ps.filter fun p => decide (p.front ≠ me) && decide (p.front ∈ dir)
+
+/-- what the connections of the front-end service `b` (own `ClientSessions`, live set
+`blive`) receive when each forwarded request is handled by `sys.pushmsg` of the service it
+names -/
+def remoteDeliveries (ser : String → List Nat) (b : String) (blive : List Nat) (sent : List Push) : List Delivery :=
+  sent.flatMap fun p => if p.front = b then pushMsg blive p.ids p.route (ser p.msg) else []
+
 /-! ### abstract reading of a history (what the property statement talks about) -/
 
 /-- the member list of one (channel, front) pair as a fold over the history:
